@@ -231,7 +231,8 @@ LEVEL_TEXT = ("Exploration by runtime monitoring: an online monitor hooked on ad
               "valid_qualified_name of every scope re-evaluates clauses (a),(b),(c) after every operation of tens of thousands of "
               "generated namespace histories (document + bundles, clashing and generated-looking prefixes, equal URIs under several "
               "prefixes, URIs that are prefixes of each other, names as QualifiedName/'p:l'/bare/full URI) and of full API programs "
-              "followed by exports. The clauses are self-referential invariants of the trace, so no model of the renaming tables is "
+              "followed by exports; for those programs clause (c) is also evaluated over every name the records hold (identifiers, attribute "
+              "names, qualified-name values, literal datatypes), whether or not it ever passed through the hooked methods. The clauses are self-referential invariants of the trace, so no model of the renaming tables is "
               "needed and a correct implementation that picks other prefixes cannot be flagged.")
 LEVEL_NOTE = ("Trusted: the monitor's own bookkeeping and the detached-copy probe. Histories are bounded (<= 40 operations, <= 4 scopes) "
               "and obey the quantifier's usage discipline; an unbounded 'always' is not decided, only the observed histories.")
